@@ -381,6 +381,11 @@ def _stream_reqs(g, tier, op, faults=False):
                 extra = {"rfail": g.rng.randint(0, len(sched) + 2), "rkind": g.rng.choice(RKINDS)}
             else:
                 extra = {"wlimit": g.rng.randint(0, len(data) + 3)}
+        if g.rng.random() < 0.2:
+            # ASCII case-insensitive searcher: the chunks carry the RAW bytes of the stream
+            extra = dict(extra or {}); extra["fold"] = 1
+            pats = [bytes((b ^ 0x20) if 97 <= b <= 122 and g.rng.random() < 0.5 else b for b in p) for p in pats]
+            data = bytes((b ^ 0x20) if 97 <= b <= 122 and g.rng.random() < 0.5 else b for b in data)
         reqs.append(mk(pats, data, sched, spare, extra))
     # production buffer size: match straddling the 64 KiB boundary at every alignment
     for k in range(0, (4 if q else 12)):
